@@ -130,6 +130,9 @@ def composite_cases(term, ns, mus):
                 fs = [x[1] for x in first]
                 fs[i] = f
                 yield f"pos{i}={lab}", (lambda fs=fs: [g() for g in fs]), (lambda fs=fs: tuple(mus[j](g()) for j, g in enumerate(fs)))
+                if lab.startswith("w") and i == 0:
+                    yield f"iter:pos{i}={lab}", (lambda fs=fs: iter([g() for g in fs])), (lambda fs=fs: tuple(mus[j](g()) for j, g in enumerate(fs)))
+                    yield f"gen:pos{i}={lab}", (lambda fs=fs: (g() for g in fs)), (lambda fs=fs: tuple(mus[j](g()) for j, g in enumerate(fs)))
         fs = [x[1] for x in first]
         yield "extra-item", (lambda fs=fs: [g() for g in fs] + ["zz"]), (lambda fs=fs: tuple(mus[j](g()) for j, g in enumerate(fs)))
         yield "short", (lambda fs=fs: [g() for g in fs][:-1]), (lambda: (_ for _ in ()).throw(ValueError("too few")))
@@ -162,6 +165,9 @@ def composite_cases(term, ns, mus):
                 if lab.startswith("w") and i == 0 or lab.startswith("rej"):
                     yield f"pairs:{names[i]}={lab}", (lambda fs=fs: [(n, g()) for n, g in zip(names, fs)]), ref
                     yield f"iter:{names[i]}={lab}", (lambda fs=fs: iter([(n, g()) for n, g in zip(names, fs)])), ref
+                    if call(lambda fs=fs: frozenset((n, g()) for n, g in zip(names, fs))).ok:  # hashable member values only
+                        yield f"setpairs:{names[i]}={lab}", (lambda fs=fs: frozenset((n, g()) for n, g in zip(names, fs))), ref
+                        yield f"setpairs-mutable:{names[i]}={lab}", (lambda fs=fs: {(n, g()) for n, g in zip(names, fs)}), ref
                     if not any(n.startswith("_") for n in names):
                         # (the fields of an OBJECT source are its public attributes: a name with a leading underscore is a key only in a mapping)
                         yield f"foreign:{names[i]}={lab}", (lambda fs=fs: Foreign(**{n: g() for n, g in zip(names, fs)})), ref
